@@ -706,7 +706,7 @@ def run_shard(spec, ctx):
     machine = make_machine(ctx.col, spec, types, _key_error_class(),
                            samples=1 if spec in ("FrameSize", "ParseInfo", "State", "VideoParameters", "CodecFeatures",
                                                  "Padding", "HQSlice", "SequenceHeader") else 0)
-    total = ctx.pick(150, 5000)
+    total = ctx.pick(150, 9000)
     j = 0
     while total > 0:
         n = min(2000, total)
